@@ -14,7 +14,12 @@ RULE = ("single trees: every rooted shape with 2-5 leaves (polytomies included) 
         "root; about 40% of all inputs with valid-but-unusual decorations (vlib.gen.exotic: extra flag bits, ALL nodes "
         "renumbered so that samples are not listed first, mutation-free sites, allele strings, populations, mutation "
         "times), 15% with exactly tied node times; cache_inside on/off, num_threads None/1(/2), numpy-typed option "
-        "values; thorough: 12 larger inputs (12-25 samples, oracle only); both probability spaces, eps in "
+        "values; thorough: 12 larger inputs (12-25 samples, oracle only); a 'heavy mutation load' family (24 quick / 150 thorough, "
+        "correspondence and oracle): hand-built 2-4 tree inputs in which one node has a different parent on every "
+        "interval, and msprime inputs, with 50-300 mutations on every parent edge of the multi-parent nodes and none "
+        "below them, so each edge's Poisson vector is 1e-100..1e-240; the rule is always re-evaluated in log space "
+        "(log inside + scipy logpmf); in linear space a node is judged only if the winning score and every edge's "
+        "largest likelihood exceed 1e-250 (otherwise the unchanged algorithm itself underflows: counted, not judged); both probability spaces, eps in "
         "{1e-8,1e-6,1e-3,0.1}; a case is non-trivial when some node has >= 2 distinct parents or the chosen index "
         "differs from argmax(inside); distinct by content hash."
         "About half of the inputs carry 1-3 extra mutations that sit on NO edge (above the root of the local tree; valid tskit input); the references count only mutations on edges, computed from the tables.")
@@ -47,6 +52,30 @@ def gen_cases(ctx, n_single, n_multi):
         if rng.random() < 0.2:
             d = D.add_unary_chain(d, rng) or d          # unary nodes above a local root
         cases.append(D.make_case(rng, d, kind="multi", **D.random_options(rng, ctx.tier == "thorough")))
+    # heavy mutation load on multi-parent nodes: each parent edge's Poisson vector is tiny (1e-100 .. 1e-240)
+    # although nothing in the unchanged algorithm underflows (it divides every vector by its own maximum)
+    for _ in range(ctx.n(24, 150)):
+        if rng.random() < 0.5:
+            d = D.multiparent_family(rng)
+        else:
+            d = D.sim_dict(rng, n=rng.randint(3, 6))
+            d = dict(d, sites=[], mutations=[])
+            for key in ("site_anc", "mut_der", "mut_time"):
+                d.pop(key, None)
+            d = D.canon(d)
+            if rng.random() < 0.6:
+                d, _ = D.renumber(d, rng)
+        rate = rng.choice([0.5, 1.0, 3.0, 10.0])           # expected mutations per unit span over the whole grid
+        # pmf(k; rate) stays above 1e-250 up to about k = 150 (rate 1) .. 230 (rate 10); a fifth of the cases go beyond
+        cap = {0.5: 140, 1.0: 150, 3.0: 185, 10.0: 230}[rate]
+        counts, nmulti = D.heavy_parent_counts(rng, d, 50, 300 if rng.random() < 0.2 else cap)
+        if nmulti == 0:
+            continue
+        d = D.canon(D.add_mutations(d, counts, rng))
+        grid = D.random_grid(rng)
+        c = D.make_case(rng, d, grid=grid, mu=rate / grid[-1], kind="heavy", offedge=0, exotic=False, ties=False,
+                        **D.random_options(rng, ctx.tier == "thorough"))
+        cases.append(c)
     if ctx.tier == "thorough":
         for _ in range(12):       # a few larger inputs (oracle only; logarithmic space cannot underflow)
             d = D.sim_dict(rng, n=rng.randint(12, 25), big=True)
@@ -69,6 +98,33 @@ def run_impl(case):
     return ts, fit
 
 
+def lin_in_premise(case):
+    """linear-space case on which the implementation raised: is the input inside the premise, i.e. does the
+    LOGARITHMIC run succeed with every finite inside value and every edge's largest likelihood above 1e-250?
+    The per-node denominators (log of the largest unstandardised product of prior and child messages) must be
+    representable too.  (otherwise the unchanged linear algorithm underflows in the inside pass: outside the
+    property's premise)"""
+    import math
+    c = dict(case, space=D.LOG)
+    try:
+        _ts, fit = run_impl(c)
+    except Exception:
+        return False
+    n = len(case["ts"]["nodes_time"])
+    for row in D.inside_rows(fit, n):
+        if row is not None and any((not math.isinf(x)) and x <= D.LOG_LO for x in row):
+            return False
+    # the unstandardised products of the inside pass (their maxima are the denominators)
+    for x in fit.denominator:
+        if not (math.isnan(x) or math.isinf(x)) and x <= D.LOG_LO:
+            return False
+    for rows in D.pmf_table(c):
+        best = max(max(r) for r in rows[1:]) if len(rows) > 1 else 0.0
+        if best <= D.LOG_LO:
+            return False
+    return True
+
+
 def check_case(ctx, case, fit, tbl):
     """the property on the implementation's output"""
     n = len(case["ts"]["nodes_time"])
@@ -82,7 +138,11 @@ def check_case(ctx, case, fit, tbl):
                             {"case": case})
             ok = False
     if ok:
-        bad = D.rule_check(case, ins, idx, tbl)
+        info = {}
+        bad = D.rule_check(case, ins, idx, tbl, info=info, lo=D.LOG_LO)
+        if info.get("outside_premise"):
+            # linear space: the unchanged algorithm's own quantities leave the double range at these nodes
+            ctx.tally("nodes-outside-premise(linear-underflow)", info["outside_premise"])
         if bad:
             ctx.oracle_fail("rule", "documented rule broken: %r" % (bad[:3],),
                             {"case": case, "idx": idx, "inside": ins})
@@ -120,6 +180,9 @@ def run(ctx, model_ok=True):
             ts, fit = run_impl(case)
         except Exception as e:  # valid input: every non-sample node must get a timepoint
             ctx.tally("impl-exception:" + type(e).__name__)
+            if case["space"] == D.LIN and not lin_in_premise(case):
+                ctx.tally("outside-premise(linear inside pass underflows)")
+                continue
             ctx.oracle_fail("exception:" + type(e).__name__, "maximization raised %r on a valid input" % (e,),
                             {"case": case})
             continue
@@ -156,6 +219,8 @@ def search(ctx):
         try:
             _ts, fit = run_impl(case)
         except Exception as e:
+            if case["space"] == D.LIN and not lin_in_premise(case):
+                continue
             ctx.oracle_fail("exception:" + type(e).__name__, "maximization raised %r on a valid input" % (e,),
                             {"case": case})
             return
